@@ -26,6 +26,8 @@ pub(super) fn exactly_one<T>(iter: impl IntoIterator<Item = T>) -> T {
 }
 
 pub(super) fn block_string_value(raw: &str) -> String {
+    // `\"""` stands for `"""` (BlockStringCharacter)
+    let raw = raw.replace("\\\"\"\"", "\"\"\"");
     // Split the string by either \r\n, \r or \n
     let lines: Vec<_> = raw
         .split("\r\n")
@@ -62,8 +64,9 @@ pub(super) fn block_string_value(raw: &str) -> String {
         .skip(first_contentful_line)
         // Remove the common indent, but not on the first line
         .map(|(i, line)| {
-            if i != 0 && line.len() >= common_indent {
-                &line[common_indent..]
+            if i != 0 {
+                // a whitespace-only line may be shorter than the common indent
+                &line[common_indent.min(line.len())..]
             } else {
                 line
             }
